@@ -24,7 +24,7 @@ def main(tier):
         PROP,
         "props.c01",
         tier,
-        7500,
+        9500,
         40000,
         rule_text='one evaluation per (input, variant, configuration) monitored fix run from the finite universe; non-trivial = the two lexers agree on the input and at least one rule changed the text; distinct by case description',
         assumptions=["independent lexer (lib/vlex.py) defines code tokens; inputs on which it disagrees with VSG's own parse are skipped (counted), never judged", 'edit contracts per rule are derived from the rule documentation (lib/effects.py RULE_CONTRACT)'],
